@@ -567,6 +567,14 @@ mod kani_harness {
     protocol_harness!(b_protocol_cap2_repeated_wakes_concrete, 2, 5,
         [(WBR, 1), (WBR, 1), (WAKE, 1), (PUSH, 1), (POP, 0), (POP, 0), (WBR, 1), (POP, 0)], 0);
 
+    //  C03: the queued flag is what guarantees the safety contract of the intrusive queue (a node is never linked while it
+    //  is linked): slot 0 woken, slot 1 woken behind it, then the OWNER marks slot 0 again (push of an already queued slot,
+    //  as after the reuse of a slot whose stale waker fired): both entries still come out, each exactly once
+    protocol_harness!(b_push_of_queued_slot_links_once, 2, 5,
+        [(WBR, 0), (WBR, 1), (PUSH, 0), (POP, 0), (POP, 0), (POP, 0)], 0);
+    protocol_harness!(b_push_of_queued_slot_links_once_rev, 2, 5,
+        [(WBR, 1), (WBR, 0), (PUSH, 1), (PUSH, 1), (POP, 0), (POP, 0), (POP, 0)], 0);
+
     /// register(w1); transitions notify w1; register(w2); transitions notify w2 only; repeated wakes and
     /// push() never notify.  (register/notify are the STUBS: what is checked is that WakerList::register forwards
     /// the waker to the header's DiatomicWaker and that wake_by_ref calls notify on that same object exactly on
